@@ -18,6 +18,15 @@ package protocol
 //verif:override (*github.com/bytom/bytom/protocol.Chain).saveBlock -> verifC12SaveBlock
 //verif:nativecut block.go saveBlock -> verifC12SaveBlock
 //verif:outside whole-node delivery through ProcessBlock/blockProcessor (channel + goroutine), tryReorganize and the store: the orphan bookkeeping and the recursive connection are decided, not the validity of the connected chain
+//verif:bound (iii) Chain.processBlock (the synchronous body behind ProcessBlock): every block tree of n = 2..4 (quick) / 5 (thorough) valid blocks above a connected genesis (each block's parent is the genesis or an earlier block: chains, forks, >= 3 siblings) delivered in every order, each block once
+//verif:assume (iii) the store is an in-memory mock whose GetBlockHeader knows exactly the genesis and the blocks saved so far; the cut saveBlock mirrors the real one at its two ends: error when the parent header is not in the store, otherwise the block is recorded in the store (c.store.SaveBlock) and removed from the orphan manager; every block is valid
+//verif:assume (iii) (*casper.Casper).BestChain is cut to "hash of the highest block in the store at the moment of the call, the earliest-numbered block on ties"; Chain.tryReorganize is cut to record its argument and move c.bestBlockHeader to that block (what setState does); both cuts are also compiled into the native replay (nativecut; the casper one through a hook variable)
+//verif:override (*github.com/bytom/bytom/protocol/casper.Casper).BestChain -> verifC12BestChain
+//verif:nativecut casper/casper.go BestChain -> verifC12BestChain
+//verif:override (*github.com/bytom/bytom/protocol.Chain).tryReorganize -> verifC12TryReorganize
+//verif:nativecut block.go tryReorganize -> verifC12TryReorganize
+//verif:obligation fn=VerifC12Deliver args=2;3;4 validate=12
+//verif:obligation fn=VerifC12Deliver args=5 tier=thorough secs=1700
 //verif:obligation fn=VerifC12Sub args=1,0;2,0;3,0;3,1;4,1 validate=12
 //verif:obligation fn=VerifC12Sub args=4,0;5,1 loops=400 secs=900
 //verif:obligation fn=VerifC12Sub args=5,0;6,1 tier=thorough secs=1700
@@ -28,8 +37,11 @@ import (
 	"errors"
 	"time"
 
+	"github.com/bytom/bytom/database/storage"
 	"github.com/bytom/bytom/protocol/bc"
 	"github.com/bytom/bytom/protocol/bc/types"
+	"github.com/bytom/bytom/protocol/casper"
+	"github.com/bytom/bytom/protocol/state"
 )
 
 func verifC12HeaderHash(bh *types.BlockHeader) bc.Hash {
@@ -281,6 +293,12 @@ type verifC12Env struct {
 	attempts []int
 	early    bool // a block was handed to saveBlock before its parent was saved
 	saved    map[bc.Hash]bool
+
+	// (iii)
+	store  *verifC12Store
+	blocks []*types.Block
+	saves  int
+	reorgs []bc.Hash
 }
 
 var verifC12Cur *verifC12Env
@@ -288,6 +306,17 @@ var verifC12Cur *verifC12Env
 // verifC12SaveBlock is the declared cut of Chain.saveBlock (see //verif:assume).
 func verifC12SaveBlock(c *Chain, block *types.Block) error {
 	env := verifC12Cur
+	if env.store != nil {
+		// (iii): the two ends of the real saveBlock around validation
+		if _, err := c.store.GetBlockHeader(&block.PreviousBlockHash); err != nil {
+			return err
+		}
+		h := block.Hash()
+		env.store.headers[h] = &block.BlockHeader
+		env.saves++
+		c.orphanManage.Delete(&h)
+		return nil
+	}
 	for i, b := range env.st.blocks {
 		if b == block {
 			env.attempts[i]++
@@ -401,4 +430,155 @@ func VerifC12Sub(n int, shape int) {
 		verifReach("VerifC12Sub:some-left")
 	}
 	verifReach("VerifC12Sub:end")
+}
+
+// ---------------------------------------------------------------------------
+// (iii) processBlock: every delivery order of small block trees
+
+var errVerifC12NoHeader = errors.New("verif: header not in store")
+
+type verifC12Store struct {
+	headers map[bc.Hash]*types.BlockHeader
+}
+
+func (s *verifC12Store) GetBlockHeader(h *bc.Hash) (*types.BlockHeader, error) {
+	if bh, ok := s.headers[*h]; ok {
+		return bh, nil
+	}
+	return nil, errVerifC12NoHeader
+}
+func (s *verifC12Store) BlockExist(h *bc.Hash) bool                      { _, ok := s.headers[*h]; return ok }
+func (s *verifC12Store) GetBlock(*bc.Hash) (*types.Block, error)         { panic("verif: not reached") }
+func (s *verifC12Store) GetStoreStatus() *state.BlockStoreState          { panic("verif: not reached") }
+func (s *verifC12Store) GetUtxo(*bc.Hash) (*storage.UtxoEntry, error)    { panic("verif: not reached") }
+func (s *verifC12Store) GetMainChainHash(uint64) (*bc.Hash, error)       { panic("verif: not reached") }
+func (s *verifC12Store) GetContract(hash [32]byte) ([]byte, error)       { panic("verif: not reached") }
+func (s *verifC12Store) GetCheckpoint(*bc.Hash) (*state.Checkpoint, error) { panic("verif: not reached") }
+func (s *verifC12Store) GetTransactionsUtxo(*state.UtxoViewpoint, []*bc.Tx) error {
+	panic("verif: not reached")
+}
+func (s *verifC12Store) CheckpointsFromNode(uint64, *bc.Hash) ([]*state.Checkpoint, error) {
+	panic("verif: not reached")
+}
+func (s *verifC12Store) GetCheckpointsByHeight(uint64) ([]*state.Checkpoint, error) {
+	panic("verif: not reached")
+}
+func (s *verifC12Store) SaveCheckpoints([]*state.Checkpoint) error { panic("verif: not reached") }
+func (s *verifC12Store) SaveBlock(*types.Block) error              { panic("verif: not reached") }
+func (s *verifC12Store) SaveBlockHeader(*types.BlockHeader) error  { panic("verif: not reached") }
+func (s *verifC12Store) SaveChainStatus(*types.BlockHeader, []*types.BlockHeader, *state.UtxoViewpoint, *state.ContractViewpoint, uint64, *bc.Hash) error {
+	panic("verif: not reached")
+}
+
+// verifC12Best: the highest block among those marked, earliest-numbered on
+// ties; -1 = genesis.
+func verifC12Best(blocks []*types.Block, in func(i int) bool) int {
+	best := -1
+	var h uint64
+	for i, b := range blocks {
+		if in(i) && b.Height > h {
+			best, h = i, b.Height
+		}
+	}
+	return best
+}
+
+// declared cut of (*casper.Casper).BestChain
+func verifC12BestChain(cs *casper.Casper) bc.Hash {
+	env := verifC12Cur
+	best := verifC12Best(env.blocks, func(i int) bool {
+		_, ok := env.store.headers[env.blocks[i].Hash()]
+		return ok
+	})
+	if best < 0 {
+		return env.blocks[0].PreviousBlockHash // genesis (block 0 always sits on it)
+	}
+	return env.blocks[best].Hash()
+}
+
+// declared cut of Chain.tryReorganize
+func verifC12TryReorganize(c *Chain, bestHash bc.Hash) error {
+	env := verifC12Cur
+	env.reorgs = append(env.reorgs, bestHash)
+	bh, err := c.store.GetBlockHeader(&bestHash)
+	if err != nil {
+		return err
+	}
+	c.bestBlockHeader = bh
+	return nil
+}
+
+func VerifC12Deliver(n int) {
+	genesis := &types.Block{BlockHeader: types.BlockHeader{Version: 1, Height: 0, Timestamp: 6000}}
+	gh := genesis.Hash()
+	store := &verifC12Store{headers: map[bc.Hash]*types.BlockHeader{gh: &genesis.BlockHeader}}
+	env := &verifC12Env{store: store}
+	verifC12Cur = env
+	// the tree: block 0 on the genesis, block i on the genesis or an earlier block
+	parentIdx := make([]int, n)
+	hashes := make([]bc.Hash, n)
+	for i := 0; i < n; i++ {
+		parentIdx[i] = -1
+		ph, height := gh, uint64(1)
+		if i > 0 {
+			parentIdx[i] = verifChoice("parent", i+1) - 1
+			if parentIdx[i] >= 0 {
+				ph, height = hashes[parentIdx[i]], env.blocks[parentIdx[i]].Height+1
+			}
+		}
+		b := &types.Block{BlockHeader: types.BlockHeader{Version: 1, Height: height, Timestamp: uint64(7000 + i), PreviousBlockHash: ph}}
+		env.blocks = append(env.blocks, b)
+		hashes[i] = b.Hash()
+	}
+	c := &Chain{orphanManage: NewOrphanManageWithData(map[bc.Hash]*OrphanBlock{}, map[bc.Hash][]*bc.Hash{}), store: store, bestBlockHeader: &genesis.BlockHeader}
+
+	delivered := make([]bool, n)
+	connected := make([]bool, n) // what in-order delivery of the delivered set gives
+	for step := 0; step < n; step++ {
+		// next block: the k-th not yet delivered one
+		k := verifChoice("next", n-step)
+		cur := -1
+		for i := 0; i < n; i++ {
+			if !delivered[i] {
+				if k == 0 {
+					cur = i
+					break
+				}
+				k--
+			}
+		}
+		parentConnected := parentIdx[cur] < 0 || connected[parentIdx[cur]]
+		nre := len(env.reorgs)
+		isOrphan, err := c.processBlock(env.blocks[cur])
+		verifObserveBool("isOrphan", isOrphan)
+		verifAssert(err == nil, "valid-block-accepted")
+		verifAssert(isOrphan == !parentConnected, "parked-iff-parent-not-connected")
+		delivered[cur] = true
+		for i := 0; i < n; i++ { // indices are topological
+			connected[i] = delivered[i] && (parentIdx[i] < 0 || connected[parentIdx[i]])
+		}
+		for i := 0; i < n; i++ {
+			_, inStore := store.headers[hashes[i]]
+			verifAssert(inStore == connected[i], "connected-iff-all-ancestors-delivered")
+			verifAssert(c.orphanManage.BlockExist(&hashes[i]) == (delivered[i] && !connected[i]), "waiting-iff-delivered-and-not-connected")
+		}
+		if parentConnected {
+			verifAssert(len(env.reorgs) == nre+1, "reorganisation-step-runs-once")
+			best := verifC12Best(env.blocks, func(i int) bool { return connected[i] })
+			if len(env.reorgs) == nre+1 {
+				verifAssert(env.reorgs[nre] == hashes[best], "reorganisation-sees-released-orphans")
+				verifAssert(c.bestBlockHeader == &env.blocks[best].BlockHeader, "best-block-follows")
+			}
+		} else {
+			verifAssert(len(env.reorgs) == nre, "no-reorganisation-for-parked-block")
+			verifReach("VerifC12Deliver:parked")
+		}
+	}
+	verifAssert(env.saves == n, "every-block-saved-exactly-once")
+	verifObserveI64("saves", int64(env.saves))
+	verifObserveI64("reorgs", int64(len(env.reorgs)))
+	if len(env.reorgs) < n {
+		verifReach("VerifC12Deliver:released-orphans")
+	}
+	verifReach("VerifC12Deliver:end")
 }
